@@ -1138,7 +1138,7 @@ func callBuiltin(caller *frame, fn *ssa.Builtin, args []value) value {
 func rangeIter(fr *frame, x value) iter {
 	switch x := x.(type) {
 	case *omap:
-		return fr.i.mapRange(x)
+		return fr.i.mapRange(fr, x)
 	case string:
 		return &stringIter{fr: fr, s: x}
 	case symstr:
